@@ -369,6 +369,29 @@ func driveRend(args []string) error {
 				stats["vm.programs"]++
 				stats["vm.calls"] += t.n
 			}
+			// directed: valid gradients with the largest stop counts (the stop registers wrap around modulo 64 and, from
+			// 59 stops on, share number registers with the matrix), painted at once
+			for _, ns := range []int{57, 58, 59, 60, 61, 62, 63} {
+				for _, b := range []int{0, 10, 63} {
+					sel := func(op string, v int) Call { c := mkCall(op); c.Sel = v; return c }
+					prog := []Call{resetCall(cfgs[0].vb, defaultPal()), sel("SetCSel", b), sel("SetNSel", b)}
+					for s := 0; s < ns; s++ {
+						cc := mkCall("SetCReg")
+						cc.C, cc.Incr = []int{0, (3 * s) % 200, 10, 20, 200 + s%56}, 1
+						nn := mkCall("SetNReg", float32(s+1)/64)
+						nn.Incr = 1
+						prog = append(prog, cc, nn)
+					}
+					g := mkCall("SetCReg")
+					g.C = []int{0, ns | 1<<6, b | 1<<6, 0x80 | b, 0}
+					prog = append(prog, sel("SetCSel", (b+ns)%64), g, mkCall("StartPath", 1, 2), mkCall("AbsLineTo", 5, 2), mkCall("RelLineTo", -1, 6), mkCall("ClosePathEndPath"))
+					t := newTracedRenderer(sh.Next(), fmt.Sprintf("vm/manystops/%d/%d", ns, b), cfgs[0].rect)
+					runProg(t, prog)
+					stats["vm.programs"]++
+					stats["vm.many_stops"]++
+					stats["vm.calls"] += t.n
+				}
+			}
 		case "corpus":
 			gs, err := loadCorpus()
 			if err != nil {
@@ -554,7 +577,7 @@ func genVMProgram(r *rand.Rand, vb [4]float32, height int) []Call {
 				for s := 0; s < ns; s++ {
 					cc := mkCall("SetCReg")
 					cc.C = randColor(r, &progOpts{})
-					if r.Intn(6) != 0 {
+					if r.Intn(6) != 0 || (ns > 9 && r.Intn(3*ns) != 0) { // (long lists: mostly valid as a whole)
 						a := r.Intn(256)
 						cc.C = []int{0, r.Intn(a + 1), r.Intn(a + 1), r.Intn(a + 1), a}
 					}
@@ -566,12 +589,12 @@ func genVMProgram(r *rand.Rand, vb [4]float32, height int) []Call {
 							step = 1
 						}
 					}
-					if r.Intn(8) == 0 && (ns <= 9 || r.Intn(8) == 0) {
+					if r.Intn(8) == 0 && (ns <= 9 || r.Intn(ns) == 0) {
 						step = 0 // not strictly increasing
 					}
 					off += step
 					nn := mkCall("SetNReg", float32(off)/120)
-					if r.Intn(10) == 0 {
+					if r.Intn(10) == 0 && ns <= 9 {
 						nn = mkCall("SetNReg", float32(off)/64)
 					}
 					if s == 0 && r.Intn(4) == 0 {
